@@ -16,9 +16,11 @@ use geodesy::authoring::*;
 use serde_json::{json, Value};
 use std::collections::HashSet;
 
-const SPELLINGS: [&str; 36] = [
+const SPELLINGS: [&str; 42] = [
     "", "-0", "1e400", "-1e400", "NaN", "inf", "1:2:3:4", "1:60:61W", "1°", "ø", "$", "$x", "$x(", "(", "(1", ")", ",", "1,,2", "1,2,3,4,5", "0", "5", "1.5", "-1", "9999999999999999999999", "true", "false", "foo", "@null", "@",
     "=", "nosuchellps", "0,0", "6378137,0", "1e-320", "4,3,2,1", "90",
+    // pairs and triples of huge magnitudes (integer conversions saturate, sums and differences of them overflow)
+    "1e30,-9e29", "9e18,-9e18", "-1e30,1e29", "3,-9e18", "9223372036854775807,-1", "1e30,1e30,-1e30",
 ];
 const PAIR_VALUES: [&str; 6] = ["", "0", "-1", "NaN", "1e400", "ø"];
 const REPLACE: [&str; 17] = ["|", "<", ">", ":", "=", "$", "(", ")", ",", "#", " ", "\n", "₀", "°", "\0", "-", "9"];
@@ -87,9 +89,18 @@ fn grammar_cases() -> Vec<String> {
         };
         defs.push(base(&[]));
         defs.push(name.to_string());
+        // the stack family is executed by the enclosing pipeline, not by the step itself: these
+        // operators are also tried as steps of a pipeline that has something on the stack
+        let in_pipeline = ["stack", "push", "pop"].contains(name);
         for k in &keys {
             for sp in SPELLINGS {
                 defs.push(format!("{} {k}={sp}", base(&[k])));
+                if in_pipeline {
+                    let f = required_flags(name);
+                    let own = if f.starts_with(k) { String::new() } else { format!(" {f}") };
+                    defs.push(format!("stack push=1,2,3 | {name} {k}={sp} | addone"));
+                    defs.push(format!("addone | {name}{own} {k}={sp}"));
+                }
             }
             defs.push(format!("{} {k}", base(&[k])));
             defs.push(format!("{} {k} {k}={k}", base(&[k])));
